@@ -62,6 +62,12 @@ def check(case, ctx):
     link = hs.Link(fm.Info(time=hs.T0, grid=g, units="m"), [fm.Info(time=hs.T0, grid=g, units="m")], chain=[spec])
     link.connect()
     inp = link.inputs[0]
+    # unit of the publication gaps: a minute (default), a second, a millisecond, a microsecond (request times are then
+    # rounded to whole microseconds by datetime arithmetic; the reference works on whatever time results)
+    unit = timedelta(microseconds=int(case.get("unit_us") or 60_000_000))
+    if case.get("unit_us"):
+        ctx.event(f"gap-unit={case['unit_us']}us")
+    rel = lambda t: round((t - hs.T0) / unit, 3)  # noqa: E731  (times in messages: multiples of the gap unit)
     vscale = 10.0 ** int(case.get("vexp", 0))  # numeric scale of the values; the tolerance of linear is relative to it
     if vscale != 1.0:
         ctx.event(f"value-scale=1e{case['vexp']}")
@@ -72,7 +78,7 @@ def check(case, ctx):
     t_now = hs.T0
     for op in ops:
         if op[0] == "push":
-            t_now = t_now + timedelta(minutes=op[1]) if pubs else hs.T0
+            t_now = t_now + op[1] * unit if pubs else hs.T0
             v = float(op[2]) * vscale
             link.out.push_data(_payload(v, grid, vscale), t_now)
             pubs.append((t_now, v))
@@ -86,7 +92,7 @@ def check(case, ctx):
             return
         first, newest = pubs[0][0], pubs[-1][0]
         if op[0] == "out":
-            t = newest + timedelta(minutes=op[2]) if op[1] == "after" else first - timedelta(minutes=op[2])
+            t = newest + op[2] * unit if op[1] == "after" else first - op[2] * unit
             try:
                 inp.pull_data(t)
             except fm.FinamTimeError:
@@ -111,7 +117,7 @@ def check(case, ctx):
         try:
             r = inp.pull_data(t)
         except (fm.FinamTimeError, fm.FinamNoDataError) as e:
-            ctx.violation(f"{kind}-refused", f"{kind}: in-range request at {hs.mins(t)} min refused: {type(e).__name__}: {e}")
+            ctx.violation(f"{kind}-refused", f"{kind}: in-range request at {rel(t)} units refused: {type(e).__name__}: {e}")
             return
         n_pull += 1
         m = np.asarray(hs.magnitude(r), dtype=float)
@@ -121,7 +127,7 @@ def check(case, ctx):
         if got.shape != np.shape(want) or not np.allclose(got, want, rtol=0, atol=tol):
             on_pub = any(t == ti for ti, _ in pubs)
             tag = f"{kind}-at-publication" if on_pub else f"{kind}-value"
-            ctx.violation(tag, f"{kind}{'' if p is None else p}: request at {hs.mins(t)} min -> {got.ravel()[:2]}, definition {np.ravel(want)[:2]}; pubs {[(hs.mins(a), b) for a, b in pubs][-6:]}")
+            ctx.violation(tag, f"{kind}{'' if p is None else p}: request at {rel(t)} units -> {got.ravel()[:2]}, definition {np.ravel(want)[:2]}; pubs {[(rel(a), b) for a, b in pubs][-6:]}")
             return
         if any(ti < t < tj for (ti, _a), (tj, _b) in zip(pubs, pubs[1:])) and not any(t == ti for ti, _ in pubs):
             inside = True
@@ -161,7 +167,8 @@ def case_st(draw, max_ops=30):
     for _ in range(n):
         k = draw(st.integers(0, 9))
         ops.append(draw(push_st if k < 4 else (pull_st if k < 9 else out_st)))
-    return {"adapter": draw(adapter_st), "grid": draw(st.booleans()), "ops": ops, "vexp": draw(st.sampled_from([0, 0, 0, -9, -12, 9]))}
+    return {"adapter": draw(adapter_st), "grid": draw(st.booleans()), "ops": ops, "vexp": draw(st.sampled_from([0, 0, 0, -9, -12, 9])),
+            "unit_us": draw(st.sampled_from([None, None, None, 1, 1, 1000, 1000000]))}
 
 
 @st.composite
